@@ -184,6 +184,7 @@ pub fn run(args: &Args) {
         results.sort_by_key(|x| x.0);
         for (i, v) in results {
             out.count("alterations");
+            out.count("evaluations");
             let a = &alts[i];
             let is_point = |m: &Model| points.iter().any(|p| p == m);
             match v {
